@@ -621,4 +621,109 @@ theorem consumeOnce_sim (p : Params) (hp : p.Valid) (s : EncState) (nid : Nat) (
         simp only [List.length_append, ← hefl, List.length_take]
         split <;> omega
 
+/-! ### whole calls and whole runs -/
+
+theorem feed_zero (p : Params) (s : EncState) (nid : Nat) (m : Method) (input : List UInt8) :
+    Enc.feed p 0 s nid m input = (s, nid, []) := rfl
+
+theorem feed_nil (p : Params) (fuel : Nat) (s : EncState) (nid : Nat) (m : Method) :
+    Enc.feed p fuel s nid m [] = (s, nid, []) := by
+  cases fuel <;> simp [Enc.feed]
+
+theorem feed_succ (p : Params) (fuel : Nat) (s : EncState) (nid : Nat) (m : Method) (input : List UInt8)
+    (hne : input ≠ []) :
+    Enc.feed p (fuel + 1) s nid m input =
+      ((Enc.feed p fuel (Enc.consumeOnce p s nid m input).st (Enc.consumeOnce p s nid m input).nextId m
+          (input.drop (Enc.consumeOnce p s nid m input).consumed)).1,
+       (Enc.feed p fuel (Enc.consumeOnce p s nid m input).st (Enc.consumeOnce p s nid m input).nextId m
+          (input.drop (Enc.consumeOnce p s nid m input).consumed)).2.1,
+       (Enc.consumeOnce p s nid m input).emits ++
+         (Enc.feed p fuel (Enc.consumeOnce p s nid m input).st (Enc.consumeOnce p s nid m input).nextId m
+          (input.drop (Enc.consumeOnce p s nid m input).consumed)).2.2) := by
+  cases input with
+  | nil => exact absurd rfl hne
+  | cons b t => simp [Enc.feed]
+
+/-- Bridge 1 for a whole `encode_borrow` / `encode_copy` call. -/
+theorem feed_sim (p : Params) (hp : p.Valid) (m : Method) (fuel : Nat) (s : EncState) (nid : Nat) (q : Pipe)
+    (σ : BS) (input : List UInt8) (hrel : Rel p s nid q σ) (h1 : σ.Inv p) (h2 : σ.Inv2)
+    (hf : input.length ≤ fuel) :
+    Rel p (Enc.feed p fuel s nid m input).1 (Enc.feed p fuel s nid m input).2.1
+      (runE q (Enc.feed p fuel s nid m input).2.2) (input.foldl (byteStep p) σ) := by
+  induction fuel generalizing s nid q σ input with
+  | zero =>
+    have : input = [] := List.eq_nil_of_length_eq_zero (by omega)
+    subst this
+    simpa [feed_zero] using hrel
+  | succ fuel ih =>
+    by_cases hne : input = []
+    · subst hne; simpa [feed_nil] using hrel
+    · obtain ⟨hc, hrel'⟩ := consumeOnce_sim p hp s nid q σ m input hrel h1
+      obtain ⟨hc0, hc1, hfold⟩ := onceA_eq_fold p σ input hne h1
+      rw [← hc] at hc0 hc1 hfold
+      rw [hfold] at hrel'
+      obtain ⟨h1', h2'⟩ := fold_inv p hp (input.take (Enc.consumeOnce p s nid m input).consumed) σ h1 h2
+      have := ih _ _ _ _ (input.drop (Enc.consumeOnce p s nid m input).consumed) hrel' h1' h2'
+        (by rw [List.length_drop]; omega)
+      rw [feed_succ p fuel s nid m input hne]
+      simp only
+      rw [runE_append]
+      rw [← List.foldl_append, List.take_append_drop] at this
+      exact this
+
+theorem pipeOf_fill (d : List UInt8) (k id : Nat) (b hdr : List UInt8) (hk : hdr.length = k) :
+    (pipeOf d k id b).apply (.fill id hdr) = ⟨(d ++ hdr ++ b).map Cell.byte, [], id + 1⟩ := by
+  simp only [pipeOf, Pipe.apply, Pipe.fill, fillCells_single id d hdr b k hk]
+
+theorem finish_eq (p : Params) (s : EncState) :
+    Enc.finish p s = flushE s ++ [Enc.closeHeader p (flushS s)] := by
+  cases hm : s.mid <;> simp [Enc.finish, flushE, flushS, hm]
+
+/-- `terminate`: the placeholder is filled, nothing is pending, the bytes are `BS.finish`. -/
+theorem finish_sim (p : Params) (hp : p.Valid) (s : EncState) (nid : Nat) (q : Pipe) (σ : BS)
+    (hrel : Rel p s nid q σ) (h1 : σ.Inv p) :
+    runE q (Enc.finish p s) = ⟨(BS.finish p σ).map Cell.byte, [], nid⟩ := by
+  obtain ⟨hmax, hcur, hmid, hbr, hnid, hq⟩ := hrel
+  have hefl : σ.eff.length = (flushS s).cur := by
+    rw [BS.eff_length, ← hmid, ← hcur]; unfold flushS; split <;> simp_all
+  have hfbr : (flushS s).brLen = s.brLen ∧ (flushS s).backref = s.backref := by
+    unfold flushS; split <;> exact ⟨rfl, rfl⟩
+  have hinv' : σ.eff.length < limit p σ.first := h1
+  rw [finish_eq, runE_append, hq, runE_flushE, hmid]
+  simp only [runE, Enc.closeHeader, List.map_cons, List.map_nil, Pipe.run, List.foldl_cons, List.foldl_nil,
+    hfbr.1, hfbr.2]
+  rw [hbr, header_take p σ.first _ (limit_lt_radix p hp (by rw [← hefl]; omega)), ← hbr,
+    pipeOf_fill _ _ _ _ _ (by simp [hbr]), ← hefl, hnid]
+  rfl
+
+theorem go_sim (p : Params) (hp : p.Valid) (pieces : List (Method × List UInt8)) (s : EncState) (nid : Nat)
+    (acc : List Emit) (σ : BS) (hrel : Rel p s nid (runE Pipe.empty acc) σ) (h1 : σ.Inv p) (h2 : σ.Inv2) :
+    ∃ n, runE Pipe.empty (Enc.runPieces.go p pieces s nid acc) =
+      ⟨(BS.finish p ((pieces.map (·.2)).flatten.foldl (byteStep p) σ)).map Cell.byte, [], n⟩ := by
+  induction pieces generalizing s nid acc σ with
+  | nil =>
+    refine ⟨nid, ?_⟩
+    simp only [Enc.runPieces.go, runE_append, List.map_nil, List.flatten_nil, List.foldl_nil]
+    exact finish_sim p hp s nid _ σ hrel h1
+  | cons md rest ih =>
+    obtain ⟨m, d⟩ := md
+    have hs := feed_sim p hp m (2 * d.length + 2) s nid _ σ d hrel h1 h2 (by omega)
+    obtain ⟨h1', h2'⟩ := fold_inv p hp d σ h1 h2
+    rw [← runE_append] at hs
+    obtain ⟨n, hn⟩ := ih _ _ _ _ hs h1' h2'
+    refine ⟨n, ?_⟩
+    simp only [Enc.runPieces.go, Enc.feedAll, List.map_cons, List.flatten_cons, List.foldl_append]
+    exact hn
+
+/-- The encoder's final pipe, for any segmentation and any methods. -/
+theorem output_eq (p : Params) (hp : p.Valid) (pieces : List (Method × List UInt8)) :
+    ∃ n, Enc.output p pieces = ⟨(encode p (pieces.map (·.2)).flatten).map Cell.byte, [], n⟩ := by
+  obtain ⟨h1, h2⟩ := init_inv p hp
+  have hrel : Rel p ⟨p.maxInit, 0, false, 0, 1⟩ 1 (runE Pipe.empty [⟨.register 1, .copy⟩]) BS.init :=
+    ⟨rfl, rfl, rfl, rfl, rfl, rfl⟩
+  obtain ⟨n, hn⟩ := go_sim p hp pieces _ _ _ _ hrel h1 h2
+  refine ⟨n, ?_⟩
+  rw [← fold_finish_encode p hp]
+  exact hn
+
 end Woodpile.Hcobs.EncProof
